@@ -867,7 +867,7 @@ def with_own_constructor(cls):
 
 
 def make_reader(cls, stream, late_rewind=False, world=None, own_ctor=False,
-                probe=False, prior=None):
+                probe=False, prior=None, flip=False):
     """late_rewind: the reader object is created while the stream is
     positioned elsewhere (at its end, as right after filling a buffer) and
     the stream is only then moved to where the DiffX data starts; nothing is
@@ -908,7 +908,7 @@ def make_reader(cls, stream, late_rewind=False, world=None, own_ctor=False,
     if own_ctor:
         cls = with_own_constructor(cls)
 
-    via = n % 2 == 0
+    via = (n % 2 == 0) != bool(flip)
 
     if late_rewind and hasattr(stream, 'seek') and hasattr(stream, 'tell'):
         try:
@@ -1027,7 +1027,8 @@ class ReaderActor(Actor):
                     cls, self.stream, bool(self.spec.get('late_rewind')),
                     world, bool(self.spec.get('own_ctor')),
                     bool(self.spec.get('probe_iter')),
-                    self.spec.get('prior_reader')))
+                    self.spec.get('prior_reader'),
+                    bool(self.spec.get('via_iter_sections'))))
             except (SimEventCap, SimHang):
                 raise
             except Exception as e:
@@ -1130,7 +1131,8 @@ def read_all(world, data, block_size=None, stream='sim', buf=None,
                 cls, st, late_rewind, world,
                 bool((extras or {}).get('own_ctor')),
                 bool((extras or {}).get('probe_iter')),
-                (extras or {}).get('prior_reader'))):
+                (extras or {}).get('prior_reader'),
+                bool((extras or {}).get('via_iter_sections')))):
             if mutate:
                 recs.append(copy.deepcopy(rec))
                 consumer_mutates(rec, mutate)
